@@ -127,6 +127,8 @@ func main() {
 		err = modeRefMerge()
 	case "export":
 		err = modeExport()
+	case "first":
+		err = modeFirst()
 	case "minimise":
 		err = modeMinimise()
 	case "replaycheck":
@@ -612,6 +614,66 @@ func modePairs() error {
 			break
 		}
 		if len(st.Failures) >= *fMaxFail || st.poisoned {
+			break
+		}
+	}
+	st.finish(start)
+	return writeJSON(*fOut, st)
+}
+
+// modeFirst: first-call sweep.  This process has not called the library yet: operation X
+// (number -k of a list that covers every entry point, including those that never run the
+// lexer) is the very first call, followed by a fixed probe list; every outcome is compared
+// with the reference table.  Catches lazily initialised state whose content depends on which
+// call came first in the process.
+func modeFirst() error {
+	start := time.Now()
+	if err := setupPool(); err != nil {
+		return err
+	}
+	refs, err := setupRefs()
+	if err != nil {
+		return err
+	}
+	st := newStats("first", *fK)
+	r := newRNG(mix64(*fSeed ^ 0xf1257))
+	byEntry := make([][]int32, nEntries)
+	for j, k := range pool.ops {
+		byEntry[k.Entry] = append(byEntry[k.Entry], int32(j))
+	}
+	per := *fM
+	var list []opKey
+	for e := 0; e < nEntries; e++ {
+		for i := 0; i < per && len(byEntry[e]) > 0; i++ {
+			list = append(list, pool.ops[byEntry[e][r.intn(len(byEntry[e]))]])
+		}
+	}
+	var probes []opKey
+	for e := 0; e < nEntries; e++ {
+		if len(byEntry[e]) > 0 {
+			probes = append(probes, pool.ops[byEntry[e][r.intn(len(byEntry[e]))]])
+		}
+	}
+	for c := 0; c < nClasses; c++ {
+		for i := 0; i < 3 && len(pool.byClass[c]) > 0; i++ {
+			probes = append(probes, pool.ops[pool.byClass[c][r.intn(len(pool.byClass[c]))]])
+		}
+	}
+	if *fK >= 0 && *fK < len(list) {
+		tp := TaskPlan{Ops: []OpPlan{{Key: list[*fK], Shared: -1}}}
+		for _, p := range probes {
+			tp.Ops = append(tp.Ops, OpPlan{Key: p, Shared: -1})
+		}
+		plan := &Plan{Tasks: []TaskPlan{tp}}
+		res := execRun(plan, execOpts{lit: &Schedule{}, refs: refs})
+		st.account(plan, nil, res)
+		st.Strategies["first-call-sweep"]++
+		for _, f := range res.Fails {
+			if f.Oracle == "HARNESS" {
+				continue
+			}
+			// this process is no longer fresh: no in-process minimisation
+			st.addFailure(int64(*fK), f, []runCase{{plan: plan, sched: &Schedule{}}}, refs, false)
 			break
 		}
 	}
